@@ -285,6 +285,15 @@ theorem glueGood_ok {ds : DSymData} (hs : ValidSym ds) {m : OppMap} (hm : BInv d
         simp at hb
         omega
 
+/-- no ridge of facet `(d,i)` is left in the boundary -/
+def Glued (ds : DSymData) (m : OppMap) (d i : Nat) : Prop :=
+  ∀ j, Rng ds (d, i, j) → oppGet m (d, i, j) = none
+
+theorem glued_mono {ds : DSymData} {m m' : OppMap}
+    (mono : ∀ k, Rng ds k → oppGet m k = none → oppGet m' k = none) {d i : Nat}
+    (h : Glued ds m d i) : Glued ds m' d i :=
+  fun j hj => mono _ hj (h j hj)
+
 /-- a queue entry that does not come from `glue` itself names a facet of the symbol -/
 def ItemOk (ds : DSymData) (it : Item) : Prop := it.2.2 = none → FacetR ds it.1 it.2.1
 
@@ -297,11 +306,18 @@ theorem glueRecLoop_ok {ds : DSymData} (hs : ValidSym ds) : ∀ (fuel : Nat) (m 
     todo.length + realCount m ≤ fuel →
     ∃ m' out, glueRecLoop ds fuel m todo res = .ok (m', out) ∧ BInv ds m' ∧
       (∀ k, Rng ds k → oppGet m k = none → oppGet m' k = none) ∧
-      (∃ l, out = res.reverse ++ l ∧ ∀ it ∈ l, ItemR ds it) ∧
-      realCount m' ≤ realCount m
+      (∃ l, out = res.reverse ++ l ∧ (∀ it ∈ l, ItemR ds it) ∧
+        ∀ it ∈ l, (it.2.2 = none ∧ it ∈ todo) ∨
+          ∃ j, it.2.2 = some j ∧ Rng ds (it.1, it.2.1, j) ∧ oppGet m (it.1, it.2.1, j) ≠ none) ∧
+      realCount m' ≤ realCount m ∧
+      (∀ it ∈ todo, it.2.2 = none → Glued ds m' it.1 it.2.1)
   | fuel, m, [], res, hm, _, _ => by
-    refine ⟨m, res.reverse, ?_, hm, fun _ _ h => h, ⟨[], by simp, fun _ h => by cases h⟩, Nat.le_refl _⟩
-    cases fuel <;> rfl
+    refine ⟨m, res.reverse, ?_, hm, fun _ _ h => h, ⟨[], ?_, ?_, ?_⟩, Nat.le_refl _, ?_⟩
+    · cases fuel <;> rfl
+    · simp
+    · intro it hit; cases hit
+    · intro it hit; cases hit
+    · intro it hit; cases hit
   | 0, m, it :: todo, res, _, _, hf => by
     simp at hf
   | fuel + 1, m, (d, i, jo) :: todo, res, hm, hok, hf => by
@@ -311,9 +327,21 @@ theorem glueRecLoop_ok {ds : DSymData} (hs : ValidSym ds) : ∀ (fuel : Nat) (m 
     cases b with
     | false =>
       simp only
-      obtain ⟨m', out, e, inv, mono, hout, hc⟩ := glueRecLoop_ok hs fuel m todo res hm
+      obtain ⟨m', out, e, inv, mono, ⟨l, hl, hlr, hlp⟩, hc, hgl⟩ := glueRecLoop_ok hs fuel m todo res hm
         (fun it h => hok it (List.mem_cons_of_mem _ h)) (by simp at hf; omega)
-      exact ⟨m', out, e, inv, mono, hout, hc⟩
+      refine ⟨m', out, e, inv, mono, ⟨l, hl, hlr, ?_⟩, hc, ?_⟩
+      · intro it hit
+        rcases hlp it hit with ⟨h1, h2⟩ | h
+        · exact Or.inl ⟨h1, List.mem_cons_of_mem _ h2⟩
+        · exact Or.inr h
+      · intro it hit hn
+        rcases List.mem_cons.1 hit with h | h
+        · -- the head is not good, so it is not a `None` entry
+          rw [h] at hn
+          simp only at hn
+          subst hn
+          simp [glueGood] at hb
+        · exact hgl it h hn
     | true =>
       simp only
       have hd : FacetR ds d i := by
@@ -325,7 +353,7 @@ theorem glueRecLoop_ok {ds : DSymData} (hs : ValidSym ds) : ∀ (fuel : Nat) (m 
       obtain ⟨m1, rs, e1, go⟩ := glue_ok hs.set hm hd
       rw [e1]
       simp only
-      obtain ⟨m', out, e, inv, mono, ⟨l, hl, hlr⟩, hc⟩ := glueRecLoop_ok hs fuel m1
+      obtain ⟨m', out, e, inv, mono, ⟨l, hl, hlr, hlp⟩, hc, hgl⟩ := glueRecLoop_ok hs fuel m1
         (todo ++ rs.map (fun r => (r.1, r.2.1, some r.2.2))) ((d, i, jo) :: res) go.inv
         (by
           intro it hit
@@ -337,17 +365,39 @@ theorem glueRecLoop_ok {ds : DSymData} (hs : ValidSym ds) : ∀ (fuel : Nat) (m 
           have := go.count
           simp at hf ⊢
           omega)
-      refine ⟨m', out, e, inv, fun k hk hn => mono k hk (go.mono k hk hn), ?_, ?_⟩
-      · refine ⟨(d, i, jo) :: l, by rw [hl]; simp, ?_⟩
-        intro it hit
+      refine ⟨m', out, e, inv, fun k hk hn => mono k hk (go.mono k hk hn), ?_, ?_, ?_⟩
+      rotate_left
+      · have := go.count; omega
+      · intro it hit hn
         rcases List.mem_cons.1 hit with h | h
         · rw [h]
-          refine ⟨hd, ?_⟩
-          intro j hj
-          simp only at hj
-          obtain ⟨hr, _⟩ := hgood rfl j hj
-          exact ⟨hr.2.2.2.1, fun e => hr.2.2.2.2 e.symm⟩
-        · exact hlr it h
-      · have := go.count; omega
+          simp only
+          exact glued_mono mono (fun j hj => (go.gone j hj.2.2.2.1 (fun e => hj.2.2.2.2 e.symm)).1)
+        · exact hgl it (List.mem_append_left _ h) hn
+      · refine ⟨(d, i, jo) :: l, by rw [hl]; simp, ?_, ?_⟩
+        · intro it hit
+          rcases List.mem_cons.1 hit with h | h
+          · rw [h]
+            refine ⟨hd, ?_⟩
+            intro j hj
+            simp only at hj
+            obtain ⟨hr, _⟩ := hgood rfl j hj
+            exact ⟨hr.2.2.2.1, fun e => hr.2.2.2.2 e.symm⟩
+          · exact hlr it h
+        · intro it hit
+          rcases List.mem_cons.1 hit with h | h
+          · rw [h]
+            cases jo with
+            | none => exact Or.inl ⟨rfl, List.mem_cons_self⟩
+            | some j =>
+              obtain ⟨hr, hp⟩ := hgood rfl j rfl
+              exact Or.inr ⟨j, rfl, hr, hp⟩
+          · rcases hlp it h with ⟨h1, h2⟩ | ⟨j, h1, h2, h3⟩
+            · rcases List.mem_append.1 h2 with h2 | h2
+              · exact Or.inl ⟨h1, List.mem_cons_of_mem _ h2⟩
+              · obtain ⟨r, _, hr⟩ := List.mem_map.1 h2
+                rw [← hr] at h1
+                cases h1
+            · exact Or.inr ⟨j, h1, h2, fun hn => h3 (go.mono _ h2 hn)⟩
 
 end DSymVerif.FGP
